@@ -10,7 +10,7 @@ from vlib import gen
 
 DUMP_TYPES = ['string', 'integer', 'number', 'boolean', 'date', 'time', 'datetime', 'year', 'array', 'object']
 # field names chosen so that schema order is usually NOT alphabetical
-DUMP_FIELD_NAMES = ['zeta', 'alpha', 'Mid', 'b', 'a', 'é', 'x y', 'a.b', 'c_1', 'B']
+DUMP_FIELD_NAMES = ['zeta', 'alpha', 'Mid', 'b', 'a', 'é', 'x y', 'a.b', 'c_1', 'B', 'a,b', 'q"t']
 TEMPORAL_FORMATS = {'date': ['%d/%m/%Y', '%Y%m%d'], 'time': ['%H.%M.%S', '%H%M%S'],
                     'datetime': ['%d/%m/%Y %H:%M:%S', '%Y%m%dT%H%M%S']}
 
